@@ -726,6 +726,19 @@ where
         // To do this, the receiver first closes the channels, which will prevent any
         // further messages to be sent into them.
         let close = self.transport.close().await.map_err(Into::into);
+        let close = match (self.connection.local_state(), close) {
+            // The close handshake is complete. Failing to shut down a byte stream that the
+            // peer may already have dropped does not make the close unclean
+            #[allow(unused_variables)]
+            (ConnectionState::End, Err(error)) => {
+                #[cfg(feature = "tracing")]
+                tracing::debug!(?error);
+                #[cfg(feature = "log")]
+                log::debug!("{:?}", error);
+                Ok(())
+            }
+            (_, close) => close,
+        };
         let result = outcome.and(close).map_err(Into::into);
 
         // Publish the stop reason before the channels are closed, so every
